@@ -86,10 +86,23 @@ def reports (r : Result) (s : Src) : Bool :=
   | some e => e.mentions s
   | none => false
 
-/-- "commit or rollback failures are reported to the caller" -/
+/-- the identity of `s` is reachable in the returned error's chain (`errors.Is`) -/
+def retIs (r : Result) (s : Src) : Bool :=
+  match r.ret with
+  | some e => e.is.contains s
+  | none => false
+
+/-- "commit or rollback failures are reported to the caller": the driver's error is reachable in the returned
+chain (`errors.Is`), not only mentioned in its text -/
 def endFailuresReported (r : Result) : Bool :=
-  (!r.log.contains (.commit false) || reports r .commit) &&
-  (!r.log.contains (.rollback false) || reports r .rollback)
+  (!r.log.contains (.commit false) || retIs r .commit) &&
+  (!r.log.contains (.rollback false) || retIs r .rollback)
+
+/-- a transaction that could not begin is reported with the driver's Begin error (or driver.ErrBadConn when
+database/sql gave up retrying) reachable in the returned chain -/
+def beginFailureReported (r : Result) : Bool :=
+  (!r.log.contains (.begin false) || retIs r .begin) &&
+  (!(r.log.any isBeginBad && !r.log.any isBegin) || retIs r .badConn)
 
 /-- the body's own error is not lost: everything it carried is still told to the caller (unless the Rollback
 it caused panicked: then that panic is what the caller gets) -/
@@ -118,7 +131,8 @@ def clauses : List (String × (Result → Bool)) :=
    ("body-runs-iff-begun", bodyRunsIffBegun), ("commit-iff-body-ok", commitIffBodyOk),
    ("rollback-iff-body-failed", rollbackIffBodyFailed), ("panic-reported", panicReported),
    ("nil-iff-commit-ok", nilIffCommitOk), ("end-failures-reported", endFailuresReported),
-   ("body-error-reported", bodyErrorReported), ("orderly-return", orderlyReturn)]
+   ("body-error-reported", bodyErrorReported), ("orderly-return", orderlyReturn),
+   ("begin-failure-reported", beginFailureReported)]
 
 /-- names of the clauses an observation violates -/
 def violated (r : Result) : List String :=
@@ -127,6 +141,6 @@ def violated (r : Result) : List String :=
 def holds (r : Result) : Bool :=
   beginsOnce r && endsExactlyOnce r && bodyRunsIffBegun r && commitIffBodyOk r &&
   rollbackIffBodyFailed r && panicReported r && nilIffCommitOk r && endFailuresReported r &&
-  bodyErrorReported r && orderlyReturn r
+  bodyErrorReported r && orderlyReturn r && beginFailureReported r
 
 end GoZero.C14.Spec
